@@ -29,3 +29,12 @@ func (c *Chain) VerifTakeFinalizeBlock(ctx context.Context) (b *block.Block, rep
 func (c *Chain) VerifCommonAncestor(ctx context.Context, b1, b2 *block.Block) *block.Block {
 	return c.commonAncestor(ctx, b1, b2)
 }
+
+// VerifVerifyLFBTicket exposes verifyLFBTicket.
+func (c *Chain) VerifVerifyLFBTicket(t *LFBTicket) bool { return c.verifyLFBTicket(t) }
+
+// VerifLFBTicketQueues returns the number of entries waiting in the received-ticket and
+// broadcast channels of the LFB ticket worker.
+func (c *Chain) VerifLFBTicketQueues() (received, broadcast int) {
+	return len(c.updateLFBTicket), len(c.broadcastLFBTicket)
+}
